@@ -111,6 +111,10 @@ func (k Keeper) Logger(ctx context.Context) log.Logger {
 	return sdkCtx.Logger().With("module", fmt.Sprintf("x/%s", types.ModuleName))
 }
 
+// ErrNoValidatorsFound is returned when no staking validator has both a registered EVM address and
+// non-zero power, e.g. while the only registered validators are jailed or unbonding.
+var ErrNoValidatorsFound = errors.New("no validators found")
+
 func (k Keeper) GetCurrentValidatorsEVMCompatible(ctx context.Context) ([]*types.BridgeValidator, error) {
 	validators, err := k.stakingKeeper.GetAllValidators(ctx)
 	if err != nil {
@@ -135,7 +139,7 @@ func (k Keeper) GetCurrentValidatorsEVMCompatible(ctx context.Context) ([]*types
 	}
 
 	if len(bridgeValset) == 0 {
-		return nil, errors.New("no validators found")
+		return nil, ErrNoValidatorsFound
 	}
 
 	// Sort the validators
